@@ -76,7 +76,7 @@ func caseVariant(t *rapid.T, w string, label string) string {
 	}
 }
 
-var plainChunks = []string{"a", "Z", "0", " ", "  ", "x y", "select", "FROM", "--", "/*", "*/", "#", "$", "$$", "\"", "`", ";", ",", "(", "%", "_", "é", "名", "𝄞", "\t", "@", "?", ":", "."}
+var plainChunks = []string{"a", "Z", "0", " ", "  ", "x y", "select", "FROM", "--", "/*", "*/", "#", "$", "$$", "\"", "`", ";", ",", "(", "%", "_", "é", "名", "𝄞", "\t", "@", "?", ":", ".", "’", "‘", "“hi”", "«", "»"}
 
 // GenString draws a single-quoted literal.
 func GenString(t *rapid.T, f Features) Lexeme {
